@@ -985,7 +985,7 @@ def get_pad_shapes_chunks(array, pad_width, axes, mode):
                 pad_chunks[i][d] = (pad_width[d][i],)
             else:
                 pad_chunks[i][d] = normalize_chunks(
-                    (max(pad_chunks[i][d]),), (pad_width[d][i],)
+                    (max(pad_chunks[i][d]) or pad_width[d][i],), (pad_width[d][i],)
                 )[0]
 
     pad_shapes = [tuple(s) for s in pad_shapes]
